@@ -16,6 +16,7 @@ from .storage import LocalStorage, NullStorage
 from .tasks import get_direct_dependencies
 from .types import LabContext, ResultMeta, ResultT, RunnerBackend, Storage, Task, TaskT, is_task, is_task_type
 from .utils import OrderedSet, base_tqdm, is_ipython, logger, tqdm, tqdm_notebook
+from . import _verif
 
 
 def check_tasks(tasks: Sequence[Task]) -> None:
@@ -183,6 +184,9 @@ class TaskCoordinator:
         task_results = {}
 
         state = TaskState(coordinator=self, tasks=tasks)
+        _verif.emit('plan', pending=_verif.task_ids(state.pending_tasks),
+                    ddeps=[[_verif.task_id(t), sorted(_verif.task_ids(ds), key=str)]
+                           for t, ds in state.task_to_direct_dependencies.items() if ds])
         task_type_counts = Counter([type(task) for task in state.pending_tasks])
         task_type_max_digits = {
             task_type: math.ceil(math.log10(task_type_counts[task_type]))
@@ -221,17 +225,21 @@ class TaskCoordinator:
             for task, res in runner.wait(timeout_seconds=0.5):
                 if isinstance(res, Exception):
                     tasks_with_removable_results = state.complete_task(task, result_meta=None)
+                    _verif.emit('complete', t=_verif.task_id(task), ok=0, held=_verif.held(runner))
                     self.handle_failure(ex=res, message=f"Task '{task}' failed.")
                 elif isinstance(res, ResultMeta):
                     if task in tasks:
                         task_results[task] = runner.get_result(task).value
+                        _verif.emit('capture', t=_verif.task_id(task))
                     tasks_with_removable_results = state.complete_task(task, result_meta=res)
+                    _verif.emit('complete', t=_verif.task_id(task), ok=1, held=_verif.held(runner))
                     pbars[type(task)].update(1)
                     pbars[type(task)].refresh(nolock=True)
                 else:
                     raise LabError(f'Unexpected task res type: {type(res)}')
 
                 runner.remove_results(tasks_with_removable_results)
+                _verif.emit('removed', held=_verif.held(runner))
 
             if task_monitor is not None:
                 task_monitor.update()
@@ -242,6 +250,7 @@ class TaskCoordinator:
                 try:
                     while (len(state.pending_tasks) > 0) or (runner.pending_task_count() > 0):
                         ready_tasks = state.get_ready_tasks()
+                        _verif.emit('ready', tasks=_verif.task_ids(ready_tasks))
                         for task in ready_tasks:
                             state.start_task(task)
                             task_type_to_task_count[type(task)] += 1
@@ -256,15 +265,19 @@ class TaskCoordinator:
                 except KeyboardInterrupt as first_keyboard_interrupt:
                     logger.info(('Interrupted. Finishing running tasks. '
                                  'Press Ctrl-C again to terminate running tasks immediately.'))
+                    _verif.emit('int1')
                     try:
                         runner.cancel()
+                        _verif.emit('cancelled')
                         # Process completed tasks until running tasks
                         # have completed.
                         while runner.pending_task_count() > 0:
                             process_completed_tasks()
                     except KeyboardInterrupt:
                         logger.info('Terminating running tasks.')
+                        _verif.emit('int2')
                         runner.stop()
+                        _verif.emit('stopped')
                         # Process completed tasks one last time after
                         # tasks have been killed.
                         process_completed_tasks()
@@ -277,6 +290,7 @@ class TaskCoordinator:
                 if task_monitor is not None:
                     task_monitor.update()
                 runner.close()
+                _verif.emit('closed', held=_verif.held(runner))
                 for pbar in pbars.values():
                     pbar.close()
                 if task_monitor is not None:
